@@ -273,6 +273,9 @@ def run(chk):
         if not found:
             return False, "no per-entry test of the optional value found in the enumeration loop", [], b.span
         return True, "", [b.span]
+    if not getattr(chk, "_overlay", None):
+        from . import c02
+        c02.loop_exit_rule(chk, P, "C19.R3:loop-exits")
     chk.ob("C19.R3:MacroProps-skip-None", "an optional capture of None contributes no property and does not end enumeration", macro_props_skip_none)
 
     def macro_props_get():
